@@ -63,15 +63,64 @@ def love_extraction(ck):
                     ck.violation({"clause": "love_extraction"}, "find_love(y=%s, g=%s) = %s, slots (y5-1, g y1, g y3) = %s" % (list(ys), g, list(out), want), {})
 
 
+def interface_rounding(ck, rng, tier):
+    """Layer membership of the slice that sits exactly AT an interface must not depend on non-dimensionalisation: for independently
+    rounded radii (r / R) * R is one ulp above or below r for several per cent of the pairs. Two-layer bodies with such "ugly" radii
+    (half of them chosen with (r/R)*R > r, half with (r/R)*R < r), solved with and without non-dimensionalisation."""
+    import numpy as np
+    from ..solver_lib import make_planet, solve
+    want = 10 if tier == "quick" else 60
+    above, below = [], []
+    while len(above) < want or len(below) < want:
+        R = round(rng.uniform(1.0e6, 7.0e6), rng.choice([-3, 0, 1]))
+        r = round(rng.uniform(0.3, 0.8) * R, rng.choice([-3, 0, 1]))
+        q = (r / R) * R
+        if q > r and len(above) < want:
+            above.append((r, R))
+        elif q < r and len(below) < want:
+            below.append((r, R))
+    worst = 0.0
+    for kind, pairs in (("above", above), ("below", below)):
+        for r, R in pairs:
+            for core in ("solid", "liquid"):
+                layers = [dict(type=core, R=r, rho=9000.0, mu=(1e11 + 1e9j) if core == "solid" else 0j, K=4e11, static=True, incompressible=False),
+                          dict(type="solid", R=R, rho=4000.0, mu=6e10 + 5e9j, K=2e11, static=True, incompressible=False)]
+                p = make_planet(layers, n_per_layer=25, r0_frac=1e-2)
+                outs = [solve(p, 1.0e-5, degree_l=2, solve_for=("tidal", "loading"), nondimensionalize=nd, use_kamata=True, integration_method="DOP853",
+                              integration_rtol=1e-9, integration_atol=1e-12) for nd in (True, False)]
+                ck.case(("interface_rounding", kind, r, R, core), True)
+                det = {"interface_radius": r, "planet_radius": R, "(r/R)*R - r (ulp)": kind, "core": core}
+                if not (outs[0]["success"] and outs[1]["success"]):
+                    if outs[0]["success"] != outs[1]["success"]:
+                        ck.violation({"clause": "same_love", "changed": "nondim", "what": "interface_rounding"},
+                                     "two-layer body (%s core) with interface at %r m, radius %r m: solve succeeds only %s non-dimensionalisation (%s)" % (
+                                         core, r, R, "with" if outs[0]["success"] else "without", (outs[1] if outs[0]["success"] else outs[0])["message"][:120]), det)
+                    continue
+                d = float(np.max(np.abs(outs[0]["love"] - outs[1]["love"])))
+                worst = max(worst, d)
+                if d > 5e-6:
+                    ck.violation({"clause": "same_love", "changed": "nondim", "what": "interface_rounding"},
+                                 "two-layer body (%s core) with interface at %r m, radius %r m ((r/R)*R is one ulp %s r): Love numbers with and without non-dimensionalisation differ by %.3g: %s vs %s" % (
+                                     core, r, R, kind, d, outs[0]["love"][0].tolist(), outs[1]["love"][0].tolist()), det)
+    ck.notes["interface_rounding_worst"] = worst
+
+
 def run(tier, seed):
     ck = Check("C03", "model_checking", tier, seed)
     rng = random.Random(seed)
     reps, yscale = so.representations(ck)
     reps = reps + expand(reps, variants(tier, rng))
+    if tier == "quick":
+        # degrees 3 and 4 on the base representation and its non-dimensionalisation flip (the thorough tier expands every single-step
+        # representation): Saito-Molodensky and the dimension algebra are degree dependent
+        qv = [dict(prob=p_, l=3) for p_ in ("uniform_solid", "two_solid", "liquid_core", "ocean_world")] + [dict(prob="two_solid", l=4), dict(prob="liquid_core", l=4)]
+        base_like = [r_ for r_ in reps if tuple(c for c in so.changed(r_) if c not in ("static", "incomp")) in ((), ("nondim",))]
+        reps = reps + expand(base_like, qv, max_changes=1)
     outs = so.run_reps(reps)
     so.check_dispatch(ck, "C03", reps, outs)
     so.check_c03(ck, reps, outs, yscale)
     love_extraction(ck)
+    interface_rounding(ck, rng, tier)
     ck.cov["traces_validated_against_impl"] = len(reps)
     ck.cov["rule"] = ("every representation reachable in <= 2 changes from the base representation of 4 problems (TLC, %d unique), each one "
                       "real radial_solver call + its 100x-tighter twin; thorough adds degrees 3-4, other frequencies and random uniform bodies" % len(reps))
